@@ -19,6 +19,9 @@ pub enum Act {
     Flush,
     /// the peer acknowledges the ack packet we emitted with this sequence number
     AckOf(u64),
+    /// the same, but the peer's ack packet is itself a late packet: it carries the given sequence number of the
+    /// universe (it may fall below, between or next to the pending ranges)
+    AckOfAs(u64, u64),
 }
 
 #[derive(Clone)]
@@ -38,6 +41,8 @@ pub struct AckWorld {
     /// (sequence of the ack packet we emitted, largest sequence it acknowledged, the ranges it carried)
     pub outstanding: Vec<(u64, u64, Vec<(u64, u64)>)>,
     pub next_peer_seq: u64,
+    /// offer AckOfAs actions
+    pub ack_packets_from_universe: bool,
     pub max_outstanding: usize,
     pub flags: u64,
     /// which oracle clauses are evaluated (each property enables its own)
@@ -96,6 +101,7 @@ impl AckWorld {
             cap_hit: false,
             outstanding: vec![],
             next_peer_seq: 1 << 20,
+            ack_packets_from_universe: false,
             max_outstanding: 2,
             flags: 0,
             oracles: O_SUBSET | O_EQUAL | O_SIZE,
@@ -253,6 +259,13 @@ impl World for AckWorld {
         }
         for (q, _, _) in &self.outstanding {
             v.push(Act::AckOf(*q));
+            if self.ack_packets_from_universe {
+                for (i, &s) in self.universe.iter().enumerate() {
+                    if !self.arrived[i] {
+                        v.push(Act::AckOfAs(*q, s));
+                    }
+                }
+            }
         }
         v
     }
@@ -281,11 +294,27 @@ impl World for AckWorld {
                 self.flags |= 1;
                 self.check_state()
             }
-            Act::AckOf(q) => {
+            Act::AckOf(_) | Act::AckOfAs(_, _) => {
+                let (q, as_seq) = match a {
+                    Act::AckOf(q) => (q, None),
+                    Act::AckOfAs(q, s) => (q, Some(*s)),
+                    _ => unreachable!(),
+                };
                 let Some(pos) = self.outstanding.iter().position(|(s, _, _)| s == q) else { return Ok(()) };
                 let (_, largest, carried) = self.outstanding.remove(pos);
-                let seq = self.next_peer_seq;
-                self.next_peer_seq += 2; // peer ack packets are never adjacent to each other
+                let seq = match as_seq {
+                    Some(s) => {
+                        if let Some(i) = self.universe.iter().position(|x| *x == s) {
+                            self.arrived[i] = true;
+                        }
+                        s
+                    }
+                    None => {
+                        let s = self.next_peer_seq;
+                        self.next_peer_seq += 2; // peer ack packets are never adjacent to each other
+                        s
+                    }
+                };
                 let bytes = encode(&Packet::Ack {
                     sequence: seq,
                     ack_ranges: vec![*q..*q + 1],
@@ -375,6 +404,18 @@ pub fn parts(tier: Tier, oracles: u8) -> Vec<Part> {
         world: Ok(w),
         depth: tier.pick(9, 12),
     });
+    // (b') the peer's ack packets are themselves late packets with sequence numbers of the universe
+    {
+        let n = tier.pick(6u64, 7u64);
+        let mut w = AckWorld::with_oracles((0..n).collect(), oracles);
+        w.max_outstanding = 1;
+        w.ack_packets_from_universe = true;
+        v.push(Part {
+            name: format!("ordered-subsets-of-0..{}-with-late-ack-packets", n),
+            world: Ok(w),
+            depth: tier.pick(7, 9),
+        });
+    }
     // (c) non-initial states with 63/64/65 ranges, further arrivals by position class
     for &n in &[63usize, 64, 65] {
         for order in ["ascending", "descending", "middle-out"] {
